@@ -222,69 +222,11 @@ def execute(case, chooser):
                            violations=V)
 
 
-def check_expectations(case, hist, key0):
-    """Compare every op's recorded result with its scripted expectation."""
-    V = []
-    for aid_s, exps in case["expect"].items():
-        aid = int(aid_s)
-        ops = case["actors"][aid]["ops"]
-        for oi, exp in enumerate(exps):
-            if exp == "any":
-                continue
-            r = hist.ret.get((aid, oi))
-            if r is None:
-                continue  # blocked or never reached: generic rules / earlier failure
-            rr = r[1]
-            op = ops[oi]
-            got = rr[1] if rr[0] == "exc" else rr[0]
-            okay = True
-            rule = "wrong-outcome"
-            if exp == "ok":
-                okay = rr[0] == "ok"
-            elif exp == "chan":
-                okay = rr[0] == "chan"
-            elif exp == "item":
-                okay = rr[0] == "item"
-                rule = "earlier-item-missing"
-            elif exp.startswith("tok:"):
-                okay = rr[0] == "item" and rr[1] == exp[4:]
-                rule = "sibling-disturbed"
-            elif exp == "alive":
-                okay = rr[0] == "item" and rr[2] == "str:'alive'"
-                rule = "gateway-not-alive"
-            elif exp == "eof":
-                okay = rr[0] == "exc" and rr[1] == "EOFError"
-                rule = "not-eof-after-error"
-            elif exp == "oserror":
-                okay = rr[0] == "exc" and rr[1] == "OSError"
-                rule = "failed-channel-not-closed"
-            elif exp == "ok|oserror":
-                okay = rr[0] == "ok" or (rr[0] == "exc" and rr[1] == "OSError")
-            elif exp == "true":
-                okay = rr == ("val", True)
-                rule = "false-instead-of-true"
-            elif exp == "raised":
-                okay = rr == ("raised",)
-            elif exp.startswith("remote:"):
-                needle = exp[7:]
-                okay = (rr[0] == "exc" and rr[1] == "RemoteError" and needle in rr[2] and "Traceback" in rr[2]
-                        and "boom" in rr[2])
-                rule = "remote-error-not-raised"
-                if rr[0] == "exc" and rr[1] == "RemoteError":
-                    rule = "remote-error-text-incomplete"
-            if not okay:
-                side = case["actors"][aid]["side"]
-                V.append(v(rule, f"{key0};{op[0]};{side};got={got}",
-                           f"actor {aid}({side}) op {oi} {op[:3]} expected {exp}, got {str(rr)[:300]}"))
-                break  # later outcomes of this actor depend on this one: judge the first deviation only
-    return V
-
-
 def oracle(case, res, hist):
     key0 = case["mode"]
     V = L.generic_rules(res, hist, allow_exc={("*", "RemoteError"), ("*", "EOFError"), ("*", "OSError")}, key=key0)
     # an op that never returned means a later expectation was never evaluated: generic blocked-forever covers it
-    V += check_expectations(case, hist, key0)
+    V += L.check_expectations(case, hist, key0)
     # RemoteError exactly once per channel observer: count RemoteError results per (side, channel)
     count = {}
     for aid, oi, op, s1, s2, r in hist.ops(("recv", "waitclose")):
